@@ -91,6 +91,17 @@ def build_cases(chk: Check, n_cases: int, max_rows: int):
         roles = [rng.choice([None, *names]) if rng.random() < 0.35 else rng.choice(names) for _ in range(4)]
         if roles[0] is None and roles[2] is None and rng.random() < 0.7:
             roles[0] = names[0]
+        if i % 6 == 5:
+            # a real denominator column whose pooled sample mean is EXACTLY one (not the absent denominator `None`,
+            # whose mean is one by convention): the delta-method terms of the denominator must still be there
+            for r in {roles[1], roles[3]} - {None}:
+                j = names.index(r)
+                tot = sum(row[j] for row in t1 + t2)
+                if tot != 0:
+                    m = tot / (len(t1) + len(t2))
+                    for row in t1 + t2:
+                        row[j] = row[j] / m
+            kind = kind + "+denom-mean-1"
         cases.append(dict(names=names, t1=t1, t2=t2, t3=t3, roles=roles, kind=kind))
     return cases
 
